@@ -17,7 +17,16 @@ RULE = ("site pairs with every rank combination 0/1/2 x 0/1/2 (cycled), "
         "sizes d, d/2, d/4 with d = 0.04 R, Richardson-extrapolated, tolerance "
         "5e-7 x (|q|+|mu|/R+|Theta|/R^2)_A (..)_B / R; field slot of a PolarSite "
         "after ApplyStaticField = central difference of the code's energy in the "
-        "dipole components; segment energies (SS, PP, SP, PS, swapped) = sum over "
+        "dipole components; induced field (every 2nd pair, own PolarSegments "
+        "of 1..3 sites, ranks 0/1/2, centre distance 2.5..40 bohr, damping "
+        "0.39 or 0.01..10, isotropic/anisotropic polarisabilities 0.5..50, "
+        "induced dipoles 1e-3..10 set with setInduced_Dipole): the slot "
+        "filled by ApplyInducedField<V|noE_V> = sum_a T(a,b)^T mu_ind(a) with T "
+        "from FillTholeInteraction = central difference of "
+        "CalcPolarEnergy().E_indu_indu() in the target's induced dipole; "
+        "exactly zero when all induced dipoles are zero; returned energy = "
+        "sum mu_ind . static field (ApplyStaticField), E_indu_stat = both "
+        "directions; segment energies (SS, PP, SP, PS, swapped) = sum over "
         "site pairs = cluster sum; Thole tensor symmetric, traceless and equal to "
         "the undamped tensor when a u^3 >= 45 (includes all pairs at 100 bohr), "
         "gradient consistency l5 = l3 - R l3'/3 for 1e-3 < a u^3 < 35; "
